@@ -36,6 +36,7 @@ type fixture struct {
 
 	pool    map[int][]*utxoRef // keysPerUTXO -> unspent funded outputs
 	counter uint64             // distinct labels for derived keys
+	reuse   bool               // buildSignedTx leaves the UTXOs in the pool (see there)
 	unit    common.Integer
 }
 
@@ -131,30 +132,25 @@ func (f *fixture) fund(keysPerUTXO, count int, distinct bool) error {
 
 		tx := common.NewTransactionV5(common.XINAssetId)
 		tx.Inputs = []*common.Input{{Genesis: fmt.Appendf(nil, "c31 funding %s %d", f.seed, id)}}
-		var shared []*crypto.Key
+		var privs, pubs []*crypto.Key
 		refs := make([]*utxoRef, n)
 		for o := range n {
-			privs := shared
-			if privs == nil {
+			if privs == nil || distinct {
 				privs = make([]*crypto.Key, keysPerUTXO)
+				pubs = make([]*crypto.Key, keysPerUTXO)
 				parallel(keysPerUTXO, func(k int) {
 					privs[k] = f.deriveKey(fmt.Sprintf("fund%d/%d", id, o), uint64(k))
+					pub := privs[k].Public()
+					pubs[k] = &pub
 				})
-				if !distinct {
-					shared = privs
-				}
 			}
 			out := &common.Output{
 				Type:   common.OutputTypeScript,
 				Amount: f.unit,
 				Script: common.NewThresholdScript(threshold),
 				Mask:   mask,
-				Keys:   make([]*crypto.Key, keysPerUTXO),
+				Keys:   pubs,
 			}
-			parallel(keysPerUTXO, func(k int) {
-				pub := privs[k].Public()
-				out.Keys[k] = &pub
-			})
 			tx.Outputs = append(tx.Outputs, out)
 			refs[o] = &utxoRef{index: uint(o), privs: privs}
 		}
@@ -174,13 +170,21 @@ func (f *fixture) fund(keysPerUTXO, count int, distinct bool) error {
 // pool and builds a script transaction spending them into one 1-key output,
 // with extraLen bytes of extra, signed by ALL keys of EVERY input.  The
 // signatures are computed in parallel, once per distinct private key.
+//
+// With f.reuse the UTXOs stay in the pool, so consecutive transactions spend
+// the SAME inputs (they differ in output key and extra, hence in hash).  Each
+// of them passes the Validate call of the loop on its own, because nothing on
+// that path locks inputs (LockInputs happens later, in the chain).  This saves
+// all but one funding transaction.
 func (f *fixture) buildSignedTx(inputs, keysPerUTXO, extraLen int) (*common.VersionedTransaction, error) {
 	pool := f.pool[keysPerUTXO]
 	if len(pool) < inputs {
 		return nil, fmt.Errorf("pool has %d UTXOs with %d keys, need %d", len(pool), keysPerUTXO, inputs)
 	}
 	ins := pool[:inputs]
-	f.pool[keysPerUTXO] = pool[inputs:]
+	if !f.reuse {
+		f.pool[keysPerUTXO] = pool[inputs:]
+	}
 
 	id := f.next()
 	tx := common.NewTransactionV5(common.XINAssetId)
